@@ -269,4 +269,7 @@ class CallTag(Tag):
         tokens = stream.into_inner(tag=token, eat=False)
         name = parse_name(self.env, tokens)
         args, kwargs = parse_arguments(self.env, tokens)
+        # Argument parsing stops at the first thing that is not a comma. Anything
+        # left is an argument that would be dropped without a word.
+        tokens.expect_eos()
         return self.node_class(token, name, args, kwargs)
